@@ -222,6 +222,19 @@ fn judge(rep: &Report, label: &str, op_def: &str, o: &Opts, inputs: &[String], r
             });
             return;
         }
+        // ... and the estimate itself must not depend on the batches: it is what the same input gives when it
+        // fits into one batch, i.e. the largest number of columns of any line
+        let widest = parsed.iter().map(|p| p.1).max().unwrap_or(0);
+        if !lines.is_empty() && cols(lines[0]) != widest {
+            rep.violation(&format!("the estimated output dimension depends on the internal batches (columns first seen after the first batch are dropped) / {key_class}"), {
+                let mut d = describe();
+                d["printed_columns"] = json!(cols(lines[0]));
+                d["widest_input_line"] = json!(widest);
+                d["lines"] = json!(lines.len());
+                d
+            });
+            return;
+        }
     }
     let conflicts = line_conflicts(&text, o);
     let mut h = 0u64;
